@@ -146,7 +146,7 @@ def eval_values(case):
         for lname, L in loaders():
             evals += 1
             try:
-                back = list(yaml.load_all(text, Loader=L))
+                back = list(yaml.load_all(deliver(text), Loader=L))
             except RecursionError:
                 raise
             except Exception as e:
@@ -347,7 +347,7 @@ def eval_nodes(case):
         for lname, L in loaders(safe=False):
             evals += 1
             try:
-                back = list(yaml.compose_all(text, Loader=L))
+                back = list(yaml.compose_all(deliver(text), Loader=L))
             except RecursionError:
                 raise
             except Exception as e:
@@ -428,7 +428,7 @@ def eval_events(case):
         for pname, L in loaders(safe=False):
             evals += 1
             try:
-                back = list(yaml.parse(text, Loader=L))
+                back = list(yaml.parse(deliver(text), Loader=L))
             except RecursionError:
                 raise
             except Exception as e:
@@ -483,6 +483,18 @@ def arms(tier):
 
 REQUIRED_CLASSES = ["root:empty-string", "root:trailing-break(keep-chomp)", "node-root:empty-scalar-with-core-tag",
                     "node-root:empty-collection", "event-root:empty-scalar", "directives", "node-root:same-node-object-in-two-documents"]
+
+
+def deliver(text):
+    """The written stream is read back as it is, or (two times in three, a pure function of the text) through a file-like object
+    whose read() returns fewer items than asked for - pipes, sockets and message-style wrappers do; documents then straddle reads."""
+    from checks.c07 import ChunkedText
+    from vlib.runner import h64
+    hv = h64(text)
+    if hv % 3 == 0:
+        return text
+    piece = [1, 5, 64, 1000][(hv // 3) % 4]
+    return ChunkedText(text, [piece] if hv % 3 == 1 else [piece, 4096, 7])
 
 
 # ------------------------------------------------------------------------------------------------
